@@ -44,7 +44,7 @@ ASSUMPTIONS = [
 ]
 TRUSTED_BASE = ['fractions.Fraction', 'recogniser and expected-value arithmetic in this file']
 SHARDS = {'quick': 1, 'thorough': 16}
-TIMEOUT = {'quick': 600, 'thorough': 3600}
+TIMEOUT = {'quick': 900, 'thorough': 3600}
 
 
 def FLOORS(tier):
